@@ -14,7 +14,10 @@ from pykdebugparser.__main__ import cli
 def main():
     req = json.load(sys.stdin)
     out = []
-    runner = CliRunner()
+    try:
+        runner = CliRunner(mix_stderr=False)      # stdout only: click reports an aborting exception on stderr
+    except TypeError:                             # newer click: stderr is always separate from .stdout
+        runner = CliRunner()
     with tempfile.TemporaryDirectory() as d:
         for i, case in enumerate(req['cases']):
             path = os.path.join(d, 'dump%d.bin' % i)
@@ -24,7 +27,7 @@ def main():
             exc = None
             if r.exception is not None and not isinstance(r.exception, SystemExit):
                 exc = type(r.exception).__name__
-            text = r.output
+            text = r.stdout
             lines = [] if text == '' else (text.split('\n')[:-1] if text.endswith('\n') else text.split('\n'))
             out.append({'exit': r.exit_code, 'exc': exc, 'lines': lines, 'raw_tail_newline': text.endswith('\n') or text == ''})
             os.unlink(path)
